@@ -149,7 +149,11 @@ MIN_EVALS = {'quick': {'energy==oracle': 15000, 'cum==oracle': 8800, 'cum==cumsu
                           'motions.start==moved(no-start)': 2890, 'energy(tau=0,anti-nodal)==2v|v|(signal velocity)': 6800,
                           'energy==0.5v|v|(trapezoid of the motions)': 6800, 'history.derived==fresh': 6460,
                           'join==pad+-put2d': 6460, 'purity.signal-observables-unchanged': 6800,
-                          'result-shares-no-memory-with-arguments': 1105000}}
+                          'result-shares-no-memory-with-arguments': 1105000,
+                          'copy.result==fresh(own values)': 26000, 'copy.unmutated-side-keeps-record': 3400,
+                          'assign.record-old-or-new(completely)': 3500, 'assign.result==fresh(own values)': 11000,
+                          'after-raise.record-consistent': 4000, 'after-raise.result==fresh(own values)': 12900,
+                          'purity.arguments-unchanged-after-raise': 14800, 'third-call==first(A;B;A)': 8000}}
 CTX = None
 _INNER = {'active': False, 'energy': None}
 
